@@ -346,13 +346,9 @@ func (tc *typechecker) typeof(expr ast.Expression, typeExpected bool) *typeInfo 
 				panic(tc.errorf(expr, "cannot take the address of %s", expr.Expr))
 			}
 			ti.Type = tc.types.PointerTo(t.Type)
-			// When taking the address of a variable, such variable must be
-			// marked as "indirect".
-			if ident, ok := expr.Expr.(*ast.Identifier); ok {
-				if _, decl, ok := tc.scopes.LookupInFunc(ident.Name); ok {
-					tc.compilation.indirectVars[decl] = true
-				}
-			}
+			// When taking the address of a variable, or of a field or an
+			// element of it, such variable must be marked as "indirect".
+			tc.markAddressedVariable(expr.Expr)
 		case ast.OperatorXor:
 			if t.Nil() || !isInteger(k) {
 				panic(tc.errorf(expr, "invalid operation: ^ %s", t))
@@ -691,6 +687,8 @@ func (tc *typechecker) typeof(expr ast.Expression, typeExpected bool) *typeInfo 
 			if !t.Addressable() {
 				panic(tc.errorf(expr, "invalid operation %s (slice of unaddressable value)", expr))
 			}
+			// The slice refers to the array.
+			tc.markAddressedVariable(expr.Expr)
 		default:
 			if kind == reflect.Pointer {
 				realType = t.Type.Elem()
@@ -2628,11 +2626,7 @@ func (tc *typechecker) checkMethodValue(t *typeInfo, expr *ast.Selector) (*typeI
 		if !ok {
 			return nil, false
 		}
-		if ident, ok := expr.Expr.(*ast.Identifier); ok {
-			if _, decl, ok := tc.scopes.LookupInFunc(ident.Name); ok {
-				tc.compilation.indirectVars[decl] = true
-			}
-		}
+		tc.markAddressedVariable(expr.Expr)
 		expr.Expr = ast.NewUnaryOperator(expr.Pos(), ast.OperatorAddress, expr.Expr)
 		tc.compilation.typeInfos[expr.Expr] = &typeInfo{
 			Type:       typ,
@@ -2866,4 +2860,37 @@ func (tc *typechecker) makeStructOf(fields []reflect.StructField, astFields []*a
 		}
 	}()
 	return tc.types.StructOf(fields)
+}
+
+// markAddressedVariable marks as "indirect" the variable, declared in the
+// function, whose address, or the address of one of its fields or elements,
+// is taken with the expression &expr (also implicitly, slicing an array or
+// calling a method with a pointer receiver): expr is the variable, or a chain
+// of field selectors of struct values and of indexes of array values that
+// starts from the variable. A pointer to a field or to an element has to refer
+// to the variable also after the variable has been assigned.
+func (tc *typechecker) markAddressedVariable(expr ast.Expression) {
+	for {
+		switch e := expr.(type) {
+		case *ast.Identifier:
+			if _, decl, ok := tc.scopes.LookupInFunc(e.Name); ok {
+				tc.compilation.indirectVars[decl] = true
+			}
+			return
+		case *ast.Selector:
+			ti := tc.compilation.typeInfos[e.Expr]
+			if ti == nil || ti.Type == nil || ti.IsType() || ti.Type.Kind() != reflect.Struct {
+				return
+			}
+			expr = e.Expr
+		case *ast.Index:
+			ti := tc.compilation.typeInfos[e.Expr]
+			if ti == nil || ti.Type == nil || ti.Type.Kind() != reflect.Array {
+				return
+			}
+			expr = e.Expr
+		default:
+			return
+		}
+	}
 }
